@@ -32,7 +32,11 @@ var (
 	c22CorpusOnce sync.Once
 	c22Corpus     []string
 	c22Tokens     []string
+	c22HandWritten int // the last so many corpus entries are the hand-written seeds
 )
+
+// c22Options: the option names compiler/options.go knows.
+var c22Options = []string{"package", "genCopyright", "scanBytes", "caseInsensitive", "tokenLine", "tokenLineOffset", "tokenColumn", "nonBacktracking", "flexMode", "genParser", "optInstantiationSuffix", "aliasIncludesOptSuffix", "cancellable", "cancellableFetch", "writeBison", "recursiveLookaheads", "tokenStream", "eventBased", "genSelector", "fixWhitespace", "debugParser", "optimizeTables", "minimizeDFA", "defaultReduce", "noEmptyRules", "maxLookahead", "disableSyntax", "expansionLimit", "expansionWarn", "eventFields", "eventAST", "extraTypes", "customImpl", "fileNode", "nodePrefix", "lang", "namespace", "includeGuardPrefix", "filenamePrefix", "abseilIncludePrefix", "dirIncludePrefix", "parseParams", "variantStackEntry", "trackReduces", "maxRuleSizeForOrdinalRef", "skipByteOrderMark", "maxLookahead", "maxLookahead"}
 
 func c22LoadCorpus() {
 	c22CorpusOnce.Do(func() {
@@ -66,7 +70,10 @@ func c22LoadCorpus() {
 			"language g(go);\neventBased = true\n:: lexer\n%s initial, x;\nid: /[a-z]+/ (class)\n'kw': /kw/\n<x> 'b': /b/ { l.State = StateInitial }\n:: parser lalr(2)\n%input A, B no-eoi;\n%left 'kw';\n%flag F = false;\nA<flag X = true> -> N: [X] id | [!X && F] 'kw' | (?= !B) 'kw' id ;\nB: (id separator 'kw')+ set(~id & first A)? .m { _ = $1 } 'kw' %prec 'kw' ;\n%generate S = set(follow A | ~precede B);\n%assert empty set(first A & first B);\n",
 			// a conflict that needs two tokens of lookahead, with every table option on
 			"language g(go);\noptimizeTables = true\ndefaultReduce = true\nminimizeDFA = true\n:: lexer\n'a': /a/\n'b': /b/\n'c': /c/\n'd': /d/\n:: parser lalr(2)\n%input S, T no-eoi;\nS: A 'a' 'b' | B 'a' 'c' ;\nA: 'd' ;\nB: 'd' ;\nT: S 'd' | 'a' ;\n",
+			// bounded lookaheads (maxLookahead) over rules with %prec, arrows and optional parts, every parser option on
+			"language g(go);\neventBased = true\nmaxLookahead = 3\nrecursiveLookaheads = true\ncancellable = true\ntokenStream = true\nfixWhitespace = true\neventFields = true\neventAST = true\n:: lexer\nspace: /[ \\t]+/ (space)\nid: /[a-z]+/\n'+': /\\+/\n'(': /\\(/\n')': /\\)/\n:: parser\n%input A;\n%left '+';\nA -> A: (?= P) '(' id ')' | (?= !P & Q) '(' E ')' '+' | E ;\nP: '(' id ')' %prec '+' ;\nQ: '(' R ;\nR -> R: id | '+' id ;\nE -> E: id | E '+' E ;\n",
 		)
+		c22HandWritten = 4
 		c22Tokens = append(c22Tokens, "{", "}", "(", ")", "[", "]", "<", ">", ";", ":", "|", "::", "->", "=", "%", "(?=", "%%", "/a/", "/[/", "'", "\"", "\\", "set(", "~", "&", "?", "*", "+", "$", "@", "lalr(", "-1", "99999999999999999999", "\xff", "\x00", "é", "%input", "%left", "%flag", "%generate", "%assert", "%expect", "%interface", "%inject", "no-eoi", "separator", "as", "true", "false", "error", "eoi", "invalid_token", "(class)", "(space)", "%s", "%x", "language", "lexer", "parser")
 	})
 }
@@ -78,12 +85,14 @@ func c22Gen(t *rapid.T) c22Case {
 	case 0: // a generated grammar (C17 generator)
 		c := c17Gen(t)
 		text = c.render("g")
+	case 1, 2: // a hand-written seed
+		text = c22Corpus[len(c22Corpus)-1-rapid.IntRange(0, c22HandWritten-1).Draw(t, "seedText")]
 	default:
 		text = c22Corpus[rapid.IntRange(0, len(c22Corpus)-1).Draw(t, "corpus")]
 	}
 	n := rapid.IntRange(0, 4).Draw(t, "mutations")
 	for i := 0; i < n; i++ {
-		switch rapid.IntRange(0, 11).Draw(t, "mop") {
+		switch rapid.IntRange(0, 14).Draw(t, "mop") {
 		case 0, 1: // replace a token
 			f := strings.Fields(text)
 			if len(f) == 0 {
@@ -162,6 +171,24 @@ func c22Gen(t *rapid.T) c22Case {
 		case 11: // end the text with an opening delimiter, possibly inside a code block
 			tails := []string{"/", "{", "{ /", "{ a /", "{ '", "{ \"", "{ /*", "{ //", "'", "\"", "/*", "/[", "/\\", "(?=", "<", "%", "[", "{ \\"}
 			text = strings.TrimRight(text, " \n") + " " + tails[rapid.IntRange(0, len(tails)-1).Draw(t, "tail")]
+		case 14: // a snippet that moves line/column bookkeeping, put at a token boundary
+			snippets := []string{"/* é€😀 */", "'é'", "'€€'", "# ü😀\n", "{ \"\\\n\" }", "{ '\\\n' }", "{ \"\\\\\n\" }", "{ /* \n */ }", "{ // }\n }", "{ \"\n\" }", "/\\\n/", "\"\\\n\"", "'\\\n'", "\r\n", "\r", "\t", "\xef\xbb\xbf", "{ `\n` }", "{{ \"}\\\n\" }}"}
+			var at []int
+			for i := 0; i < len(text); i++ {
+				if text[i] == ' ' || text[i] == '\n' {
+					at = append(at, i)
+				}
+			}
+			if len(at) > 0 {
+				a := at[rapid.IntRange(0, len(at)-1).Draw(t, "snippetAt")]
+				text = text[:a] + " " + snippets[rapid.IntRange(0, len(snippets)-1).Draw(t, "snippet")] + text[a:]
+			}
+		case 12, 13: // set an option right behind the header: every option meets every grammar shape
+			opt := c22Options[rapid.IntRange(0, len(c22Options)-1).Draw(t, "option")]
+			vals := []string{"true", "false", "0", "1", "2", "3", "-1", "64", "\"x\"", "[]", "[\"a\"]", "[a]", "a"}
+			if i := strings.Index(text, ";"); i >= 0 && strings.HasPrefix(text, "language") {
+				text = text[:i+1] + "\n" + opt + " = " + vals[rapid.IntRange(0, len(vals)-1).Draw(t, "value")] + "\n" + text[i+1:]
+			}
 		}
 	}
 	if len(text) > 60000 {
@@ -258,8 +285,8 @@ func trimText(s string) string {
 func TestC22(t *testing.T) {
 	p := &prop[c22Case]{
 		ID:   "C22",
-		Rule: "grammar texts: 90% a file from the repository (5 shipped grammars and every compiler/gen/syntax testdata grammar, «» markers removed) or one of three hand-written feature-dense seeds (one with a conflict that needs lalr(2) under every table option), 10% a generated grammar (C17 generator), with 0..4 mutations: replace/insert a token taken from any corpus file or a list of hostile tokens, delete a byte range, duplicate/delete a line, splice lines from another grammar, flip an option value, overwrite a raw byte, truncate; Params CheckOnly/Verbose/DebugTables in all 8 combinations. compiler.Compile must return (panics and log.Fatal are trapped; 60 s watchdog); every status.Error must have 0<=Offset<=EndOffset<=len(text) with Line/Column consistent with the offset; a tm.SyntaxError likewise (offset, line). Thorough adds native coverage-guided fuzzing (FuzzC22). Non-trivial: the text parses and produces a semantic diagnostic or reaches table generation; distinct by text.",
-		Quick: 4000, Thorough: 80000,
+		Rule: "grammar texts: 70% a file from the repository (5 shipped grammars and every compiler/gen/syntax testdata grammar, «» markers removed), 20% one of four hand-written feature-dense seeds (one with a conflict that needs lalr(2) under every table option, one with maxLookahead-bounded lookaheads over %prec rules), 10% a generated grammar (C17 generator), with 0..4 mutations: replace/insert a token taken from any corpus file or a list of hostile tokens, delete a byte range, duplicate/delete a line, splice lines from another grammar, flip an option value, overwrite a raw byte, truncate (anywhere, behind a delimiter, or ending in an opening delimiter), set one of the 46 known options to one of 13 values behind the header, insert one of 19 snippets that move line/column bookkeeping (non-ASCII comments and terminals, escaped and raw newlines inside quoted strings of code blocks, CR, BOM) at a token boundary; Params CheckOnly/Verbose/DebugTables in all 8 combinations. compiler.Compile must return (panics and log.Fatal are trapped; 60 s watchdog); every status.Error must have 0<=Offset<=EndOffset<=len(text) with Line/Column consistent with the offset; a tm.SyntaxError likewise (offset, line). Thorough adds native coverage-guided fuzzing (FuzzC22). Non-trivial: the text parses and produces a semantic diagnostic or reaches table generation; distinct by text.",
+		Quick: 24000, Thorough: 160000,
 		Gen:      c22Gen,
 		Check:    c22Check,
 		Inflight: true,
